@@ -749,6 +749,40 @@ def _assoc(f, b, expr, at, ends, upper):
     return None
 
 
+def _r1_cached_values(ctx, mn, f, loops, ends, first_loop):
+    """a value computed from one bracket end before the search loop and kept across the iterations (the defect at that end) must be
+    refreshed wherever that end is rebound - otherwise the loop decides on the value of a point that is no longer the end"""
+    cached = {}        # name -> the end it is a function of
+    for st in au.stmts(f.body):
+        if getattr(st, "lineno", 0) >= first_loop.lineno:
+            break
+        for name, v in sym.split_assign(st):
+            hit = au.names(v) & set(ends)
+            if name not in ends and len(hit) == 1 and isinstance(v, (ast.Call, ast.BinOp)):
+                cached[name] = next(iter(hit))
+    for c, e in sorted(cached.items()):
+        for lp in loops:
+            used = any(isinstance(n, ast.Name) and n.id == c and isinstance(n.ctx, ast.Load) for n in au.walk(lp))
+            top = {n for st in lp.body for n, _ in sym.split_assign(st)}
+            if not used or c in top:
+                continue        # not read by the loop, or recomputed at every iteration
+            for st, name, v, co in _end_updates(lp.body, ends):
+                if name != e:
+                    continue
+                blk, _ = au.enclosing_block(st)
+                rebinds = lambda s_: c in {n for n, _ in sym.split_assign(s_)} or \
+                    (isinstance(s_, ast.AugAssign) and isinstance(s_.target, ast.Name) and s_.target.id == c)
+                same_branch = [s_ for s_ in (blk or [st]) if rebinds(s_)]
+                s_site = ctx.site(mn, f, st)
+                if c in co or same_branch:
+                    ctx.ok("C14-R1", s_site, f"ring: `{c}` is refreshed with `{e}`")
+                else:
+                    ctx.fail("C14-R1", s_site, f"ring: the bracket end `{e}` is rebound but the value `{c}` cached for it is not refreshed",
+                             f"`{au.src(st)[:80]}` moves `{e}` while `{c}` (computed from `{e}` before the loop and read by the loop) keeps the value of "
+                             f"the old end: the tests of the search (and its stopping criterion) then compare the target with the defect of a point "
+                             f"that is no longer an end of the bracket - the apex found is not the one of the requested defect")
+
+
 def r1_ring_bracket(ctx):
     fn = ctx.repo.func(RINGS, "ring")
     site = ctx.site(RINGS, fn)
@@ -788,6 +822,7 @@ def r1_ring_bracket(ctx):
     b = sym.Bindings(f)
     loops = [lp for lp in loops if _end_updates(lp.body, ends)]
     first_loop = min(loops, key=lambda l: l.lineno)
+    _r1_cached_values(ctx, mn, f, loops, ends, first_loop)
     # initial heights of the two ends: literal numbers / Vec(0, 0, h) bound before the first loop
     alts = _initial_bracket(f, ends, first_loop)
     # the widest bracket the search can start from (a conditional one-time extension before the loop included)
